@@ -36,7 +36,7 @@ def resIsSig {α} : Res α → Bool
 def okOrSig {α} (r : Res α) : Bool := resIsOk r || resIsSig r
 
 /-- a frame without the two fields statements update in place -/
-def core (fr : Frame) : Frame := { fr with line := 0, ret := none }
+def core (fr : Frame) : Frame := { fr with line := 0, ret := none, started := false }
 
 def norm : List Frame → List Frame
   | [] => []
